@@ -8,18 +8,20 @@ namespace Ajson.Proofs
 open Ajson Ajson.Heap
 
 /-- the heap `update` has prepared for the loop (receiver marked, cleared, retyped to an empty array), on plain data -/
-theorem prepared_refines {h : Heap} (hs : Struct h) (ha : Acyc h) (n : Nat) (hn : n < h.size) (fuel : Nat) :
-    let R := ((((h.mark n).clear n).modify n (fun r => { r with type := .array, cache := none })).modify n (fun r => { r with children := some [] }))
-    (∀ m : Id, ¬ Anc h m n → absVal fuel R m = absVal fuel h m) ∧ absVal (fuel + 1) R n = some (.arr []) ∧
+theorem prepared_refines {h : Heap} (hs : Struct h) (ha : Acyc h) (n : Nat) (hn : n < h.size) (t : NType) (fuel : Nat) :
+    let R := ((((h.mark n).clear n).modify n (fun r => { r with type := t, cache := none })).modify n (fun r => { r with children := some [] }))
+    (∀ m : Id, ¬ Anc h m n → absVal fuel R m = absVal fuel h m) ∧
+    ((t = .array → absVal (fuel + 1) R n = some (.arr [])) ∧ (t = .object → absVal (fuel + 1) R n = some (.obj []))) ∧
     (∀ m : Id, Anc R m n → Anc h m n) ∧
-    (∀ m : Id, m ≠ n → (R.get m).parent = if (m : Id) ∈ (h.childMap n).vals then none else (h.get m).parent) := by
+    (∀ m : Id, m ≠ n → (R.get m).parent = if (m : Id) ∈ (h.childMap n).vals then none else (h.get m).parent) ∧
+    R.childMap n = [] := by
   intro R
   have hm := hs.mark n hn
   have hszm : n < (h.mark n).size := by rw [hm.2.1]; exact hn
   have hcmm : (h.mark n).childMap n = h.childMap n := by
     unfold childMap; rcases mark_get h n n with e | e <;> rw [e]
-  have hR : R = (setScalar (h.mark n) n .null none).modify n (fun r => { r with type := .array, children := some [] }) := by
-    show ((((h.mark n).clear n).modify n (fun r => { r with type := .array, cache := none })).modify n (fun r => { r with children := some [] })) = _
+  have hR : R = (setScalar (h.mark n) n .null none).modify n (fun r => { r with type := t, children := some [] }) := by
+    show ((((h.mark n).clear n).modify n (fun r => { r with type := t, cache := none })).modify n (fun r => { r with children := some [] })) = _
     unfold setScalar
     rw [modify_modify, modify_modify, modify_modify]
   have hszS : (setScalar (h.mark n) n .null none).size = h.size := by rw [setScalar_size, hm.2.1]
@@ -37,7 +39,7 @@ theorem prepared_refines {h : Heap} (hs : Struct h) (ha : Acyc h) (n : Nat) (hn 
       simp [hin, this]
     · simp only [hin, false_and, if_false]
       rcases mark_get h n m with e | e <;> rw [e]
-  have hRn : R.get n = { (setScalar (h.mark n) n .null none).get n with type := .array, children := some [] } := by
+  have hRn : R.get n = { (setScalar (h.mark n) n .null none).get n with type := t, children := some [] } := by
     rw [hR, get_modify]; simp [hszS, hn]
   have hnk : (n : Id) ∉ ((h.mark n).childMap n).vals := by
     intro hx
@@ -75,7 +77,7 @@ theorem prepared_refines {h : Heap} (hs : Struct h) (ha : Acyc h) (n : Nat) (hn 
           simp [this]
   have hanc : ∀ m : Id, Anc R m n → Anc h m n := fun m ⟨k, hk⟩ => ⟨k, by rw [← hup k]; exact hk⟩
   have hdat : R.datas = h.datas := by rw [hR]; simp [setScalar]
-  refine ⟨?_, ?_, hanc, hpar⟩
+  refine ⟨?_, ?_, hanc, hpar, by unfold childMap; rw [hRn]; rfl⟩
   · intro m hmo
     apply absVal_congr h R (fun m => ¬ Anc h m n) _ fuel m hmo
     intro x hx
@@ -87,13 +89,21 @@ theorem prepared_refines {h : Heap} (hs : Struct h) (ha : Acyc h) (n : Nat) (hn 
       · exact ⟨rfl, rfl, rfl, rfl, rfl, rfl, rfl⟩
     refine ⟨by unfold Heap.typeOf; rw [r.1], fun hsc => scalarVal_congr h R x hdat r (by unfold Heap.typeOf at hsc; exact hsc), ?_, offChain_kids hs n x hx⟩
     unfold childMap; rw [r.2.2.2.2.2.1]
-  · unfold absVal
-    have : R.typeOf n = .array := by unfold Heap.typeOf; rw [hRn]
-    rw [this]
-    simp only []
-    have hc : R.childMap n = [] := by unfold childMap; rw [hRn]; rfl
-    rw [hc]
-    rfl
+  · have hc : R.childMap n = [] := by unfold childMap; rw [hRn]; rfl
+    have hty : R.typeOf n = t := by unfold Heap.typeOf; rw [hRn]
+    constructor
+    · intro ht
+      unfold absVal
+      rw [hty, ht]
+      simp only []
+      rw [hc]
+      rfl
+    · intro ht
+      unfold absVal
+      rw [hty, ht]
+      simp only []
+      rw [hc]
+      rfl
 
 /-- **SetArray is assignment of a list**: for pairwise different elements, each fresh, detached or a child of the receiver itself
 (and none the receiver or above it), the receiver afterwards denotes the list of what the elements denoted, in order, and every node
@@ -112,7 +122,8 @@ theorem setArray_refines {h : Heap} (hs : Struct h) (ha : Acyc h) (n : Nat) (hn 
     simp only [Heap.update, Heap.validate, hany, Bool.false_eq_true, if_false, SetVal.type]
   rw [e]
   obtain ⟨sR, aR, zR, _, tR⟩ := update_prepared hs ha n hn .array rfl
-  obtain ⟨f0, v0, anc0, par0⟩ := prepared_refines hs ha n hn fuel
+  obtain ⟨f0, ⟨v0', _⟩, anc0, par0, _⟩ := prepared_refines hs ha n hn .array fuel
+  have v0 := v0' rfl
   generalize ((((h.mark n).clear n).modify n (fun r => { r with type := .array, cache := none })).modify n (fun r => { r with children := some [] })) = R at *
   have hidsR : ∀ v ∈ ids, (v : Nat) < R.size ∧ (R.get v).parent = none ∧ ¬ Anc R v n := by
     intro v hv
